@@ -7,8 +7,5 @@ CONSTANTS
   LbBig = 1000000
   FixRetire = FALSE
 CONSTRAINT Progress
-INVARIANTS
-  OneFate PortOk LostOnePerDeath NoFactoryPanic KeyExclusive KeyFifo OneAtATime RoundRobinCovers QueuerNoIdle ViewExact
-  QueueBound HookOrder PoolConverges DrainComplete DrainRefuses
 POSTCONDITION Accepted
 CHECK_DEADLOCK FALSE
